@@ -130,6 +130,29 @@ func init() {
 				ct(c, &c17Text{Text: strings.ToUpper(t), Origin: t, Class: "upper"})
 			}
 		}
+		c.Phase("long-payloads") // texts of several hundred to several thousand characters: round trip, specification text, and substitutions at sampled positions over the whole length
+		for li, L := range []int{200, 240, 245, 246, 250, 256, 300, 511, 512, 600, 2000, 5000} {
+			if !c.Case(uint64(li)) {
+				continue
+			}
+			r := c.Rand(uint64(li))
+			for _, pf := range prefixes {
+				v := 1 + r.Intn(200)
+				rt(c, &c17RT{Prefix: pf, Version: v, Network: v, Data: r.Bytes(L)})
+				t := refaddr.EncodeBIP276(refaddr.BIP276{Prefix: pf, Version: v, Network: v, Data: r.Bytes(L)})
+				ct(c, &c17Text{Text: t, Origin: t, Class: "identity"})
+				for k := 0; k < 160; k++ {
+					i := len(pf) + 1 + r.Intn(len(t)-len(pf)-1)
+					if k%4 == 0 {
+						i = len(t) - 1 - r.Intn(40) // near the end: the last data digits and the checksum
+					}
+					ch := "0123456789abcdef"[r.Intn(16)]
+					if ch != t[i] {
+						ct(c, &c17Text{Text: t[:i] + string(ch) + t[i+1:], Origin: t, Class: "substitute"})
+					}
+				}
+			}
+		}
 		c.Phase("free-form")
 		free := []string{"", ":", "bitcoin-script:", "bitcoin-script:01", "bitcoin-script:0101", "bitcoin-script:010100000000", "bitcoin-script:invalid",
 			"bitcoin-script:0101zz00000000", ":010100deadbeef", "bitcoin-script:01010", "bitcoin-script::0101ab00000000"}
